@@ -176,4 +176,34 @@ theorem listMax_eq_some_iff (xs : List Rat) (m : Rat) :
       · subst hm; grind
       · have := h3 m hm; grind
 
+/-- `isBoundsOfB` decides `IsBoundsOf` -/
+theorem isBoundsOfB_iff (b : Bounds) (pts : List Pt) : isBoundsOfB b pts = true ↔ IsBoundsOf b pts := by
+  simp only [isBoundsOfB, Bool.and_eq_true, List.all_eq_true, List.any_eq_true, decide_eq_true_eq]
+  constructor
+  · rintro ⟨⟨⟨⟨h1, h2⟩, h3⟩, h4⟩, h5⟩; exact ⟨h1, h2, h3, h4, h5⟩
+  · rintro ⟨h1, h2, h3, h4, h5⟩; exact ⟨⟨⟨⟨h1, h2⟩, h3⟩, h4⟩, h5⟩
+
+/-- two association lists with the same keys whose values are determined by the key are equal -/
+theorem assoc_ext {α β : Type} (f : α → Option β) : ∀ (xs ys : List (α × β)),
+    xs.map (·.1) = ys.map (·.1) → (∀ p ∈ xs, f p.1 = some p.2) → (∀ p ∈ ys, f p.1 = some p.2) → xs = ys := by
+  intro xs
+  induction xs with
+  | nil => intro ys h _ _; cases ys <;> simp_all
+  | cons x xs ih =>
+    intro ys h hx hy
+    cases ys with
+    | nil => simp at h
+    | cons y ys =>
+      simp only [List.map_cons, List.cons.injEq] at h
+      have e1 := hx x (by simp)
+      have e2 := hy y (by simp)
+      have : x = y := by
+        rcases x with ⟨a, v⟩; rcases y with ⟨a', v'⟩
+        simp only at h e1 e2
+        obtain ⟨rfl, _⟩ := h
+        rw [e1] at e2; cases e2; rfl
+      subst this
+      congr 1
+      exact ih ys h.2 (fun p hp => hx p (List.mem_cons_of_mem _ hp)) (fun p hp => hy p (List.mem_cons_of_mem _ hp))
+
 end SE.Proofs.Lemmas.Bounds
